@@ -43,6 +43,7 @@ func (raceDom) Gen(r *gen.R, tier string, emit func(string)) {
 		emit(wire.Line("raceq", strconv.Itoa(2+r.Intn(3)), strconv.Itoa(r.Intn(1000000))))
 		if i%3 == 0 {
 			emit(wire.Line("raceown", strconv.Itoa(i/3), strconv.Itoa(r.Intn(1000000))))
+			emit(wire.Line("racerestart", strconv.Itoa(1+i%4), strconv.Itoa(r.Intn(1000000))))
 		}
 	}
 }
@@ -419,9 +420,58 @@ func raceOwnership(variant int, seed uint64) string {
 	return "done"
 }
 
+// raceRestart: a supervisor keeps calling Serve on a fresh connection (it is refused until the
+// service is stopped) while Shutdown is still finishing.
+func raceRestart(workers int, seed uint64) string {
+	s := res.NewService("rr")
+	s.SetLogger(logger.NewMemLogger())
+	s.SetWorkerCount(workers)
+	s.Handle("a.$id", res.Call("do", func(r res.CallRequest) { r.OK(nil) }))
+	served := make(chan struct{}, 8)
+	s.SetOnServe(func(*res.Service) { served <- struct{}{} })
+	done := make(chan struct{}, 8)
+	conn := recconn.New()
+	go func() { s.Serve(conn); done <- struct{}{} }()
+	select {
+	case <-served:
+	case <-time.After(5 * time.Second):
+		return "serve-hung"
+	}
+	for cycle := 0; cycle < 6; cycle++ {
+		conn.Deliver("call.rr.a.1.do", fmt.Sprintf("_INBOX.rr%d", cycle), nil)
+		go s.Shutdown()
+		next := recconn.New()
+		go func() {
+			deadline := time.Now().Add(5 * time.Second)
+			for time.Now().Before(deadline) {
+				if err := s.Serve(next); err == nil {
+					break
+				}
+			}
+			done <- struct{}{}
+		}()
+		select {
+		case <-served:
+		case <-time.After(6 * time.Second):
+			return "restart-hung"
+		}
+		_ = s.Conn()
+		conn = next
+	}
+	s.Shutdown()
+	for i := 0; i < 7; i++ {
+		select {
+		case <-done:
+		case <-time.After(6 * time.Second):
+			return "serve-did-not-return"
+		}
+	}
+	return "done"
+}
+
 func (raceDom) Exec(a []string) string {
 	return Safe(func() string {
-		if len(a) < 3 || (a[0] != "race" && a[0] != "raceq" && a[0] != "raceown") {
+		if len(a) < 3 || (a[0] != "race" && a[0] != "raceq" && a[0] != "raceown" && a[0] != "racerestart") {
 			return "bad-op"
 		}
 		w, _ := strconv.Atoi(a[1])
@@ -431,6 +481,9 @@ func (raceDom) Exec(a []string) string {
 		}
 		if a[0] == "raceown" {
 			return raceOwnership(w, uint64(seed))
+		}
+		if a[0] == "racerestart" {
+			return raceRestart(w, uint64(seed))
 		}
 		return raceScenario(w, uint64(seed))
 	})
